@@ -2,6 +2,8 @@ import Model
 import Model.Elab
 import Proofs.Walk
 import Proofs.Team
+import Proofs.EffortGlobal
+import Proofs.WFCheck
 /-!
 C03 — a scheduled task receives exactly its effort.
 
@@ -64,6 +66,57 @@ theorem one_candidate_set (e : Env) (σ : St) (prim alt : List Nat) (effort : Ra
 theorem selection_sticks (e : Env) (σ : St) (t : Nat) (w : Walk) (s : List Nat) (h : w.selected = some s) :
     selectedOf e σ t w = s := by
   unfold selectedOf; rw [h]
+
+/-! ### end to end -/
+
+/-- a task whose only allocation is the resource `r` (no alternatives) selects `[r]` in every state -/
+theorem elig_of_single (e : Env) (t r : Nat) (hlf : (e.taskD t).leaf = true) (ha : (e.taskD t).hasAlloc = true)
+    (hm : (e.taskD t).milestone = false) (hpos : 0 < (e.taskD t).effort)
+    (hal : (e.taskD t).alloc = [r]) (halt : (e.taskD t).alt = []) : Elig e t r :=
+  ⟨hlf, ha, hm, hpos, fun σ c => by rw [hal, halt]; exact selectBest_single e σ r _ c⟩
+
+/-- **one task, end to end** (`TaskScenario.schedule()`): started in any state that satisfies the scheduler
+    invariant and holds nothing of the task on `r`, a successful run leaves entries of the task on `r` in a set of
+    distinct slots `vis` and nowhere else on `r`, and (Σ seconds over `vis`) x efficiency / 3600 = effort, exactly -/
+theorem task_effort_exact (e : Env) (wf : WF e) (σ : St) (t r : Nat) (hinv : Inv e σ) (hel : Elig e t r)
+    (hnd : (σ.tst t).done = false) (hclean : ∀ i, usageOf (σ.led.get r i).usage t = none)
+    (hok : (scheduleTask e σ t).2 = true) :
+    ∃ vis : List Int, vis.Nodup ∧ (∀ i, i ∉ vis → usageOf ((scheduleTask e σ t).1.led.get r i).usage t = none) ∧
+      sumOver (scheduleTask e σ t).1.led r t vis / 3600 * (e.resD r).eff = (e.taskD t).effort :=
+  scheduleTask_exact e wf σ t r hinv hel.leaf hel.alloc hel.nomile hel.effort hel.sel hnd hclean hok
+
+/-- **C03 for whole projects**: after scheduling ANY well-formed project, every effort task with a single selected
+    resource `r` that is reported as scheduled holds, in the final ledger, entries on `r` in distinct slots `vis` and
+    nowhere else on `r`, whose seconds weighted by the efficiency of `r` add up to exactly the requested effort —
+    never less, and no further slot.  (All efforts, efficiencies, resolutions, calendars, limits, priorities,
+    dependencies, ASAP and ALAP, whatever else is booked.) -/
+theorem effort_exact (e : Env) (wf : WF e) (t r : Nat) (hel : Elig e t r)
+    (hs : ((runScenario e).tst t).scheduled = true) :
+    ∃ vis : List Int, vis.Nodup ∧ (∀ i, i ∉ vis → usageOf ((runScenario e).led.get r i).usage t = none) ∧
+      sumOver (runScenario e).led r t vis / 3600 * (e.resD r).eff = (e.taskD t).effort :=
+  runScenario_effort_exact e wf t r hel
+    (runScenario_scheduled_done e t ⟨hel.leaf, hel.effort, hel.nomile⟩ hs)
+
+/-- the same for the environment elaborated from a project description, under the decidable check -/
+theorem effort_exact_elab (p : RawProj) (h : wfCheck (elaborate p).env = true) (t r : Nat)
+    (hel : Elig (elaborate p).env t r) (hs : ((runScenario (elaborate p).env).tst t).scheduled = true) :
+    ∃ vis : List Int, vis.Nodup ∧
+      (∀ i, i ∉ vis → usageOf ((runScenario (elaborate p).env).led.get r i).usage t = none) ∧
+      sumOver (runScenario (elaborate p).env).led r t vis / 3600 * ((elaborate p).env.resD r).eff
+        = ((elaborate p).env.taskD t).effort :=
+  effort_exact _ (wfCheck_sound _ h) t r hel hs
+
+/-- non-vacuity: the witness of finding F13 (efficiency 0.7, effort 2.1 h — three slots of a double sum to
+    2.0999999999999996) is a well-formed project whose task is eligible -/
+def f13 : RawProj :=
+  { G := 3600, start := 1736121600, stop := 1737331200,
+    res := [{ eff := some (7/10) }],
+    tasks := [{ effort := some (21/10), alloc := some ([0], []) }] }
+
+example : wfCheck (elaborate f13).env = true := by decide +kernel
+example : Elig (elaborate f13).env 0 0 :=
+  elig_of_single _ 0 0 (by decide +kernel) (by decide +kernel) (by decide +kernel) (by decide +kernel)
+    (by decide +kernel) (by decide +kernel)
 
 /-! ### the team clause -/
 
